@@ -8,7 +8,7 @@ one QoS level reach every subscriber of that topic in the order they were
 published."
 
 Property theorems only (helper lemmas: `Proofs/WriteLock.lean`,
-`Proofs/BrokerOrder.lean`).
+`Proofs/WriteWrap*.lean`, `Proofs/BrokerOrder.lean`).
 
 Part 1 (whole packets) is about `Model/WriteLock.lean`: `service.writeMessage`
 as a small-step program run by any number of goroutines against one
@@ -18,6 +18,11 @@ length; a choice that is not enabled is skipped).  A packet is an opaque byte
 string here: that `Encode` produces a well-formed packet of exactly the
 announced length is the codec's property (C03); what is proved here is that
 the stream is the concatenation of those byte strings, whole and in commit order.
+
+Section 5 redoes part 1 over the ring as it is (`Model/WriteWrap.lean`): a finite
+ring of `2^k` cells with a consumer, `WriteWait` blocking / refusing, and the
+wrap branch with the shared scratch buffer `svc.outtmp` (helper lemmas:
+`Proofs/WriteWrap*.lean`; tie to the source: `extract/facts_wrap.go`).
 
 Part 2 (per-publisher order, section 4) is about the sequential broker model
 `Model/Broker.lean`, for *all* broker states satisfying the representation
